@@ -48,6 +48,7 @@ type World struct {
 	addrTaken map[*ssa.Function]bool
 	callers   map[*ssa.Function][]*ssa.Function
 	recursive map[*ssa.Function]bool
+	byKey     map[string]*ssa.Function
 }
 
 func LoadWorld(root string) (*World, error) {
@@ -321,19 +322,30 @@ func (w *World) computeMods() {
 				switch in := in.(type) {
 				case *ssa.Store:
 					addr := in.Addr
+					var touched []string
 					for {
 						if fa, ok := addr.(*ssa.FieldAddr); ok {
 							st := derefStruct(fa.X.Type())
-							m[st.Field(fa.Field).Name()] = true
+							touched = append(touched, st.Field(fa.Field).Name())
 							addr = fa.X
 							continue
 						}
 						if ia, ok := addr.(*ssa.IndexAddr); ok {
-							m["[]"] = true
+							touched = append(touched, "[]")
 							addr = ia.X
 							continue
 						}
+						if sl, ok := addr.(*ssa.Slice); ok {
+							addr = sl.X
+							continue
+						}
 						break
+					}
+					if _, fresh := addr.(*ssa.Alloc); fresh {
+						continue // storage this function created itself (locals, literals, varargs): no existing state changes
+					}
+					for _, t := range touched {
+						m[t] = true
 					}
 					if g, ok := addr.(*ssa.Global); ok {
 						m["global:"+g.Name()] = true
